@@ -860,7 +860,7 @@ def run(ctx):
                 "scripted uniform + Poisson streams incl. 0, 2^-53, 1-2^-53 and draws that make energy conservation reject tries); non-trivial = distinct tuples; "
                 "secondaries: direct calls with every energy index, table knots as draws; trees: random add_children histories (single/list/tuple/empty, nested, "
                 "absent parents, occasional re-added particles) interleaved with every query, compared exactly; probes judge the property on the implementation")
-    ctx.trusted += ["Coq 8.16.1 kernel; Coquelicot (is_derive); Interval (interval tactic, kernel-checked by vm_compute over primitive floats/ints)",
+    ctx.trusted += ["Coq 8.16.1 kernel; Coquelicot (is_derive)",
                     "tools/py2coq.py + tools/gen_particle.py (translator: meaning of the NumPy whitelist, raise -> option, retry loop -> retry_loop, enum values read from the class bodies)",
                     "harness/realextract.py extraction directives (R -> OCaml float), used for the correspondence only",
                     "Model/Secondaries.v and Model/EventTree.v are hand-written: pinned by AST hash, validated by correspondence"]
